@@ -23,6 +23,13 @@ import tempfile
 
 from harness import common, tlc
 
+try:
+  # Pure module imports (no hub is created, nothing is patched): forked children inherit them, which
+  # halves the per-case start-up cost.  scales itself is imported only in the child, after common.boot().
+  import gevent, gevent.event, gevent.lock, gevent.queue, gevent.socket   # noqa: F401,E401
+except Exception:   # pragma: no cover
+  pass
+
 NAME = 'pool'
 PROPS = ['C07']
 LEVEL = {'C07': 'model_checking'}
@@ -65,19 +72,20 @@ ORIG_MODELS = [
        what='original FailingMessageSink(MaxWaitersError()) (TypeError): no max-waiters error delivered'),
 ]
 
+
 def models(prop, tier):
   if tier == 'quick':
     return [
       dict(module='WatermarkPool', cfg='WatermarkPool_fix.cfg', coverage=True, may_be_unused=['CloseExt'],
-           what='repaired code: (min,max,queue) in {0,1}x{1,2}x{0,1,2}, 4 requests, 1 death, 2 timeouts'),
+           what='repaired code: (min,max,queue) in {0,1}x{1,2}x{0,1,2}, 4 requests, 2 deaths/failed opens, 2 timeouts'),
       dict(module='WatermarkPool', cfg='WatermarkPool_close.cfg', coverage=True,
-           what='repaired code + owner Close(): (1,2,1),(0,1,2).., 3 requests'),
+           what='repaired code + owner Close(): (min,max,queue) in {0,1}x{1,2}x{1,2}, 3 requests, 1 death, 2 timeouts'),
     ] + ORIG_MODELS
   return [
     dict(module='WatermarkPool', cfg='WatermarkPool_fix.cfg', coverage=True, may_be_unused=['CloseExt'],
-         what='repaired code: (min,max,queue) in {0,1}x{1,2}x{0,1,2}, 4 requests, 1 death, 2 timeouts'),
+         what='repaired code: (min,max,queue) in {0,1}x{1,2}x{0,1,2}, 4 requests, 2 deaths/failed opens, 2 timeouts'),
     dict(module='WatermarkPool', cfg='WatermarkPool_close.cfg', coverage=True,
-         what='repaired code + owner Close(), 3 requests'),
+         what='repaired code + owner Close(): (min,max,queue) in {0,1}x{1,2}x{1,2}, 3 requests, 1 death, 2 timeouts'),
     dict(module='WatermarkPool', cfg='WatermarkPool_big.cfg', timeout=3000, heap='24g',
          what='repaired code: (min,max,queue) in {0,1,2}x{1,2,3}x{0,1,2,unbounded}, 4 requests, 2 deaths, 3 timeouts'),
   ] + ORIG_MODELS
@@ -573,20 +581,23 @@ def _systematic(tier, seed):
         for word in itertools.product(alpha, repeat=wlen):
           out.append(_sym_script(cfg, prefix, ''.join(word)))
     return out
-  for cfg in CONFIGS:
+  for cfg in CONFIGS:                     # every configuration: all suffixes of length <= 2
     prefix = 'a' * (cfg[1] + 1)
-    for wlen in (1, 2, 3):
+    for wlen in (1, 2):
       for word in itertools.product(alpha, repeat=wlen):
         out.append(_sym_script(cfg, prefix, ''.join(word)))
-  for cfg, prefix in [((1, 1, 2), 'aaa'), ((0, 2, 1), 'aaa'), ((1, 2, 2), 'aaaa')]:
-    for word in itertools.product(alpha, repeat=4):
+  for cfg, prefix in [((1, 1, 2), 'aaa'), ((0, 2, 1), 'aaa'), ((1, 2, UNB), 'aaaa'), ((0, 1, 1), 'aa'),
+                      ((2, 2, 2), 'aaa'), ((1, 3, 1), 'aaaa'), ((0, 1, 0), 'a')]:
+    for word in itertools.product(alpha, repeat=3):
       out.append(_sym_script(cfg, prefix, ''.join(word)))
+  for word in itertools.product(alpha, repeat=4):
+    out.append(_sym_script((1, 2, 2), 'aaa', ''.join(word)))
   return out
 
 
 def cases(prop, tier, seed):
   rng = random.Random(7000003 * int(seed) + 7)
-  n = 1000 if tier == 'quick' else 30000
+  n = 1000 if tier == 'quick' else 20000
   out = []
   for i in range(n):
     out.append(_rand_script(rng, CONFIGS[(i + int(seed)) % len(CONFIGS)]))
@@ -610,21 +621,35 @@ def nontrivial(prop, t):
 
 
 def witness(prop, t, consumed, clause):
+  """Features of a failing history (for known_findings matching)."""
   ev = t['ev']
-  upto = ev[:consumed]
+  upto = ev[:consumed + 1]
   on = set()
+  dead = set()
   tmo_waiting = False
+  dead_cached_discarded = False
+  arriving = False
   for e in upto:
-    if e['e'] == 'Start':
+    k = e['e']
+    if k == 'Start':
       on.add(e['r'])
-    elif e['e'] == 'Create' and e['r']:
+    elif k == 'Create' and e['r']:
       on.add(e['r'])
-    elif e['e'] == 'TimedOut' and e['r'] not in on:
+    elif k == 'TimedOut' and e['r'] not in on:
       tmo_waiting = True
-  died = any(e['e'] == 'Die' or (e['e'] == 'Opened' and not e['ok']) for e in upto)
+    elif k == 'Die' or (k == 'Opened' and not e['ok']):
+      dead.add(e['c'])
+    elif k == 'Closed' and arriving and e['c'] in dead:
+      dead_cached_discarded = True      # _Dequeue threw a dead cached connection away
+    if k == 'Arrive':
+      arriving = True
+    elif k != 'Closed':
+      arriving = False
+  errs = t.get('meta', {}).get('errors', [])
   fe = ev[consumed] if consumed < len(ev) else {'e': 'end'}
-  return {'event': fe['e'], 'timed_out_while_waiting': tmo_waiting, 'connection_died': died,
-          'greenlet_errors': ','.join(t.get('meta', {}).get('errors', []))}
+  return {'event': fe['e'], 'timed_out_while_waiting': tmo_waiting, 'connection_died': bool(dead),
+          'dead_cached_discarded': dead_cached_discarded,
+          'index_error': 'IndexError' in errs, 'type_error': 'TypeError' in errs}
 
 
 # ------------------------------------------------------------------ direction A
@@ -660,19 +685,27 @@ def detect_variant():
 
 SIM_CFG = '''SPECIFICATION Spec
 CONSTANTS
-  MinS = {0, 1, 2}
-  MaxS = {1, 2, 3}
-  QS = {0, 1, 2, 1000}
-  NReq = 5
-  NConn = 5
-  MaxDie = 2
-  MaxTmo = 3
-  ExtClose = TRUE
+  MinS = %(MinS)s
+  MaxS = %(MaxS)s
+  QS = %(QS)s
+  NReq = %(NReq)d
+  NConn = %(NConn)d
+  MaxDie = %(MaxDie)d
+  MaxTmo = %(MaxTmo)d
+  ExtClose = %(ExtClose)s
   FixPQ = %(FixPQ)s
   FixDeq = %(FixDeq)s
   FixMaxW = %(FixMaxW)s
 CHECK_DEADLOCK FALSE
 '''
+# TLC's random walks pick uniformly among successor states: with many deaths/timeouts/closes enabled the
+# queue hand-off paths are rarely reached, so most behaviours come from traffic-heavy constants.
+SIM_PLANS = [
+  (0.4, dict(MinS='{0, 1}', MaxS='{1, 2}', QS='{1, 2, 1000}', NReq=6, NConn=4, MaxDie=0, MaxTmo=1, ExtClose='FALSE')),
+  (0.3, dict(MinS='{0, 1}', MaxS='{1, 2}', QS='{1, 2, 1000}', NReq=6, NConn=4, MaxDie=1, MaxTmo=2, ExtClose='FALSE')),
+  (0.3, dict(MinS='{0, 1, 2}', MaxS='{1, 2, 3}', QS='{0, 1, 2, 1000}', NReq=5, NConn=5, MaxDie=2, MaxTmo=3,
+             ExtClose='TRUE')),
+]
 
 
 def _replay_one(script):
@@ -698,45 +731,65 @@ def _replay_one(script):
     return None
 
   drift = compare(['Init', []], s0)
+
+  def conn(i):
+    return w.conns[i - 1] if 0 < i <= len(w.conns) else None
+
   for act, state in beh[1:]:
     name, params = act
     st = state['st']
+    ok = True
     if name == 'SpawnArr':
       nreq = st['nextr'] - 1
       w.arrive(nreq, None)
     elif name == 'RunTask':
       w.mode = 'ok' if params[0] else 'wait'
-      loop.step_callback()
+      ok = loop.has_callbacks()
+      if ok:
+        loop.step_callback()
     elif name == 'OpenDone':
-      w.open_done(w.conns[params[0] - 1], bool(params[1]))
+      ok = conn(params[0]) is not None and w.open_done(conn(params[0]), bool(params[1]))
     elif name == 'Respond':
-      w.answer(params[0], params[1])
+      ok = w.answer(params[0], params[1])
     elif name == 'Timeout':
-      w.timeout(params[0])
+      ok = w.timeout(params[0])
     elif name == 'Die':
-      w.die(w.conns[params[0] - 1], 0)
+      ok = conn(params[0]) is not None and w.die(conn(params[0]), 0)
     elif name == 'CloseExt':
-      w.close_pool()
+      ok = w.close_pool()
     else:
       raise ValueError('unknown action %r' % (act,))
     steps += 1
+    if not ok:
+      # the real pool is not where the model thinks it is: the action cannot be performed
+      if drift is None:
+        drift = {'step': steps, 'action': [name, params], 'spec': 'action enabled', 'real': 'action not applicable'}
+      break
     if drift is None:
       drift = compare([name, params], st)
   w.mode = 'ok'
-  w.finish(max(nreq, 5))
+  w.finish(nreq)
   return {'cfg': cfg, 'ev': w.ev, 'steps': steps, 'drift': drift, 'meta': w.meta()}
 
 
 def replay_behaviours(prop, tier, seed):
   variant = detect_variant()
   num = 300 if tier == 'quick' else 5000
-  fd, path = tempfile.mkstemp(prefix='WatermarkPool_sim_', suffix='.cfg')
-  try:
-    with os.fdopen(fd, 'w') as f:
-      f.write(SIM_CFG % dict((k, 'TRUE' if v else 'FALSE') for k, v in variant.items()))
-    r, behs = tlc.simulate_behaviours('WatermarkPool', path, num=num, depth=40, seed=int(seed) + 1, timeout=900)
-  finally:
-    os.unlink(path)
+  behs = []
+  for k, (frac, consts) in enumerate(SIM_PLANS):
+    consts = dict(consts)
+    consts.update((f, 'TRUE' if v else 'FALSE') for f, v in variant.items())
+    fd, path = tempfile.mkstemp(prefix='WatermarkPool_sim_', suffix='.cfg')
+    try:
+      with os.fdopen(fd, 'w') as f:
+        f.write(SIM_CFG % consts)
+      r, bs = tlc.simulate_behaviours('WatermarkPool', path, num=max(1, int(num * frac)), depth=50,
+                                      seed=int(seed) * 10 + k + 1, timeout=900)
+    finally:
+      os.unlink(path)
+    if not bs:
+      raise RuntimeError('no behaviours from TLC simulate:\n' + r.stdout[-2000:])
+    behs.extend(bs)
   if not behs:
     raise RuntimeError('no behaviours from TLC simulate:\n' + r.stdout[-2000:])
   scripts = [{'behaviour': [[a, s] for a, s in b]} for b in behs]
@@ -753,8 +806,18 @@ def replay_behaviours(prop, tier, seed):
     if o['drift']:
       drift.append(o['drift'])
     traces.append({'cfg': o['cfg'], 'ev': o['ev'], 'meta': o['meta'], 'script': s})
+  def has(b, pred):
+    return any(pred(st['st']) for _, st in b)
+  shape = {
+    'with_waiters': sum(1 for b in behs if has(b, lambda st: len(st['waiters']) > 0)),
+    'with_handoff_task': sum(1 for b in behs if has(b, lambda st: any(t[0] == 'PQ' for t in st['runq']))),
+    'with_two_handoff_tasks': sum(1 for b in behs if has(b, lambda st: sum(1 for t in st['runq'] if t[0] == 'PQ') > 1)),
+    'with_timeout_while_queued': sum(1 for b in behs if has(b, lambda st: 'tmoq' in st['ph'])),
+    'with_parked_open': sum(1 for b in behs if has(b, lambda st: 'opening' in st['ph'])),
+    'with_pool_closed': sum(1 for b in behs if has(b, lambda st: st['pstate'] == 'closed')),
+  }
   return {'summary': {'behaviours_replayed': len(behs), 'steps_compared': steps, 'drift': len(drift),
-                      'model_variant': variant},
+                      'model_variant': variant, 'shape': shape},
           'traces': traces, 'drift': drift}
 
 
